@@ -101,23 +101,24 @@ func TestProp(t *testing.T) {
 	cbDone.Wait()
 	rep.Extra("wall_callback_s", cbWall)
 	rep.Extra("values", nValues)
+	rep.Extra("tamper_families", allFamilies)
 	rep.Extra("values_bitflip_exhaustive", exhaustiveN)
 	rep.Exhaustive(false)
 
 	if env.Replay == "" {
 		rep.Floor("genuine_values", nValues)
 		rep.Floor("opened_genuine", nValues*3)
-		rep.Floor("bitflips_executed", env.Pick(20000, 1000000))
+		rep.Floor("bitflips_executed", env.Pick(15000, 1000000))
 		rep.Floor("bitflips_exhaustive_values", exhaustiveN)
-		rep.Floor("class_prefix", env.Pick(10000, 500000))
-		rep.Floor("class_substitute-char", env.Pick(10000, 500000))
+		rep.Floor("class_prefix", env.Pick(6000, 300000))
+		rep.Floor("class_substitute-char", env.Pick(6000, 300000))
 		rep.Floor("family_"+famExt, env.Pick(1500, 70000))
 		rep.Floor("family_"+famTail, env.Pick(100, 5000))
 		rep.Floor("family_"+famCRLF, env.Pick(500, 25000))
 		rep.Floor("family_"+famWS, env.Pick(500, 25000))
-		rep.Floor("family_"+famPad, env.Pick(150, 8000))
-		rep.Floor("family_"+famStd, env.Pick(60, 3000))
-		rep.Floor("family_"+famPct, env.Pick(150, 8000))
+		rep.Floor("family_"+famPad, env.Pick(120, 6000))
+		rep.Floor("family_"+famStd, env.Pick(50, 2500))
+		rep.Floor("family_"+famPct, env.Pick(120, 6000))
 		rep.Floor("family_"+famCase, env.Pick(100, 5000))
 		rep.Floor("family_"+famNonce, env.Pick(500, 25000))
 		rep.Floor("family_"+famKey, env.Pick(300, 15000))
@@ -211,7 +212,11 @@ func runValue(rep *vh.Report, env vh.Env, i, exhaustiveN, substReps int) *pendin
 	}
 	p.cnt["genuine_values"]++
 	if i%7 == 0 {
-		rep.Sample(map[string]interface{}{"value_index": i, "kind": v.Kind, "shape": v.Shape, "key_size": keySize, "sealed_len": len(seals[0]), "plain": v.plain()})
+		smp := map[string]interface{}{"value_index": i, "kind": v.Kind, "shape": v.Shape, "key_size": keySize, "sealed_len": len(seals[0])}
+		if len(seals[0]) < 1500 {
+			smp["plain"], smp["sealed"] = v.plain(), seals[0]
+		}
+		rep.Sample(smp)
 	}
 	g := seals[0]
 	p.ref = g
